@@ -1,7 +1,10 @@
 (* Relocation (C16), part A: what Database.declare stores.
-   canonicalizePaths, addFlavor and the trimDir loop of write on the declared forms. *)
+   canonicalizePaths, addFlavor and the trimDir loop of write on the declared forms.
+   The stack is named root (the name on EUPS_PATH, which every declared path inside the stack
+   begins with); rroot is the directory that name resolves to.  Without symbolic links the
+   two are the same. *)
 From Eupsv Require Import Base.Base Base.BaseLemmas Model.Paths Model.Records
-  Proofs.RecordsLib Proofs.PathsLib Proofs.Records Proofs.Paths.
+  Proofs.RecordsLib Proofs.PathsLib Proofs.Records Proofs.Paths Proofs.Links.
 From Coq Require Import Lia.
 
 (* o is not the stack root nor below it *)
@@ -172,84 +175,98 @@ Qed.
 
 (* ------------------------------------------------------------ the trimDir loop of write *)
 
-(* a value the loop leaves alone: it does not exist, or it is not below the stack root *)
-Definition inert_val (ex : str -> bool) (root s : str) : Prop := ex s = false \/ subpath s root = false.
+Definition rp (pe : penv) (s : str) : str := realpath (pe_links pe) s.
 
-Lemma trim_key_inert ex root k (i : info) :
-  (forall s, alookup k i = Some (Some s) -> inert_val ex root s) ->
-  trim_key true ex (Some root) k i = Ok i.
+(* a value the loop leaves alone: it is relative, or it does not exist, or its resolved name
+   is not below the resolved stack root *)
+Definition inert_val (pe : penv) (ex : str -> bool) (rroot s : str) : Prop :=
+  isabs s = false \/ ex s = false \/ subpath_abs (rp pe s) rroot = false.
+
+Lemma trim_key_inert pe ex root rroot k (i : info) :
+  isabs root = true -> rp pe root = rroot ->
+  (forall s, alookup k i = Some (Some s) -> inert_val pe ex rroot s) ->
+  trim_key true pe ex (Some root) k i = Ok i.
 Proof.
-  intro H. unfold trim_key. destruct (alookup k i) as [[s|]|] eqn:E; try reflexivity.
-  destruct (H s eq_refl) as [H1|H1].
+  intros HA HR H. unfold trim_key. destruct (alookup k i) as [[s|]|] eqn:E; try reflexivity.
+  cbn [andb]. destruct (isabs s) eqn:A; cbn [negb]; [|reflexivity].
+  rewrite (abs_from_abs _ _ A).
+  destruct (H s eq_refl) as [H1|[H1|H1]].
+  - congruence.
   - now rewrite H1.
   - destruct (ex s); [|reflexivity]. cbn [negb]. destruct root as [|c r]; [reflexivity|].
-    now rewrite H1.
+    rewrite (abs_from_abs _ _ HA). unfold rp in *. rewrite HR, H1. reflexivity.
 Qed.
 
-Lemma trim_keys_inert ex root keys (i : info) :
-  (forall k s, alookup k i = Some (Some s) -> inert_val ex root s) ->
-  trim_keys true ex (Some root) keys i = Ok i.
+Lemma trim_keys_inert pe ex root rroot keys (i : info) :
+  isabs root = true -> rp pe root = rroot ->
+  (forall k s, alookup k i = Some (Some s) -> inert_val pe ex rroot s) ->
+  trim_keys true pe ex (Some root) keys i = Ok i.
 Proof.
-  intro H. induction keys as [|k ks IH]; [reflexivity|]. cbn [trim_keys].
-  rewrite trim_key_inert by (intros s E; exact (H k s E)). exact IH.
+  intros HA HR H. induction keys as [|k ks IH]; [reflexivity|]. cbn [trim_keys].
+  rewrite (trim_key_inert pe ex root rroot) by (assumption || (intros s E; exact (H k s E))). exact IH.
 Qed.
 
-Lemma trim_all_inert ex root (m : amap info) :
-  (forall g j, In (g, j) m -> forall k s, alookup k j = Some (Some s) -> inert_val ex root s) ->
-  trim_all true ex (Some root) m = Ok m.
+Lemma trim_all_inert pe ex root rroot (m : amap info) :
+  isabs root = true -> rp pe root = rroot ->
+  (forall g j, In (g, j) m -> forall k s, alookup k j = Some (Some s) -> inert_val pe ex rroot s) ->
+  trim_all true pe ex (Some root) m = Ok m.
 Proof.
-  induction m as [|[g j] m IH]; intro H; [reflexivity|]. cbn [trim_all].
-  unfold trim_info_gen. rewrite trim_keys_inert by (intros k s; apply (H g j); now left). cbn [bind].
-  rewrite IH; [reflexivity|]. intros g' j' Hin. apply (H g' j'). now right.
+  intros HA HR. induction m as [|[g j] m IH]; intro H; [reflexivity|]. cbn [trim_all].
+  unfold trim_info_gen.
+  rewrite (trim_keys_inert pe ex root rroot) by (assumption || (intros k s; apply (H g j); now left)).
+  cbn [bind]. rewrite IH; [reflexivity|]. intros g' j' Hin. apply (H g' j'). now right.
 Qed.
 
-Lemma trim_all_app_last ex root (m : amap info) f i i' :
-  trim_all true ex (Some root) m = Ok m -> trim_info ex (Some root) i = Ok i' ->
-  trim_all true ex (Some root) (m ++ [(f, i)]) = Ok (m ++ [(f, i')]).
+Lemma trim_all_app_last pe ex root (m : amap info) f i i' :
+  trim_all true pe ex (Some root) m = Ok m -> trim_info pe ex (Some root) i = Ok i' ->
+  trim_all true pe ex (Some root) (m ++ [(f, i)]) = Ok (m ++ [(f, i')]).
 Proof.
   induction m as [|[g j] m IH]; intros H T; cbn [app trim_all].
   - unfold trim_info in T. rewrite T. reflexivity.
-  - cbn [trim_all] in H. destruct (trim_info_gen true ex (Some root) j) as [j'|]; [|discriminate].
-    cbn [bind] in *. destruct (trim_all true ex (Some root) m) as [m'|] eqn:Em; [|discriminate].
+  - cbn [trim_all] in H. destruct (trim_info_gen true pe ex (Some root) j) as [j'|]; [|discriminate].
+    cbn [bind] in *. destruct (trim_all true pe ex (Some root) m) as [m'|] eqn:Em; [|discriminate].
     cbn [bind] in H. injection H as -> ->. rewrite (IH eq_refl T). reflexivity.
 Qed.
 
-Lemma subpath_outside root o : wf_abs root = true -> wf_abs o = true -> outside root o = true ->
-  subpath o root = false.
+Lemma subpath_abs_outside rroot p : wf_abs rroot = true -> outside rroot p = true ->
+  subpath_abs p rroot = false.
 Proof.
-  intros HR Ho H. pose proof (wf_abs_nonempty _ HR) as NR.
-  apply wf_abs_parts in HR. destruct HR as [R1 [R2 _]]. apply wf_abs_parts in Ho. destruct Ho as [O1 _].
+  intros HR H. pose proof (wf_abs_nonempty _ HR) as NR.
+  apply wf_abs_parts in HR. destruct HR as [R1 [R2 _]].
   unfold outside in H. apply andb_true_iff in H. destruct H as [H1 H2]. apply negb_true_iff in H1, H2.
-  unfold subpath, subpath_abs. rewrite O1, R1. cbn [Bool.eqb].
-  rewrite path_join_nil by assumption. now rewrite H1, H2.
+  unfold subpath_abs. rewrite path_join_nil by assumption. now rewrite H1, H2.
 Qed.
 
-Lemma dir_stored_inert ex root dk :
-  (forall s, ex s = true -> isabs s = true) ->
-  wf_abs root = true -> wf_dirk dk = true -> wf_place root dk = true ->
-  inert_val ex root (dir_stored dk).
+(* an outside directory resolves to a place outside the resolved stack root *)
+Definition out_dir (pe : penv) (rroot : str) (dk : dirk) : Prop :=
+  match dk with DOut o => outside rroot (rp pe o) = true | _ => True end.
+
+Lemma dir_stored_inert pe ex rroot dk :
+  wf_abs rroot = true -> wf_dirk dk = true -> out_dir pe rroot dk ->
+  inert_val pe ex rroot (dir_stored dk).
 Proof.
-  intros EA HR Hd Hp. destruct dk as [d|o|]; cbn [dir_stored wf_dirk wf_place] in *.
-  - left. apply wf_rel_parts in Hd. destruct Hd as [_ [D2 _]].
-    destruct (ex d) eqn:E; [|reflexivity]. apply EA in E. congruence.
-  - right. now apply subpath_outside.
-  - left. destruct (ex s_none) eqn:E; [|reflexivity]. apply EA in E. discriminate.
+  intros HR Hd Hp. destruct dk as [d|o|]; cbn [dir_stored wf_dirk out_dir] in *.
+  - left. apply wf_rel_parts in Hd. tauto.
+  - right. right. now apply subpath_abs_outside.
+  - left. reflexivity.
 Qed.
 
-Lemma rel_inert ex root s : (forall x, ex x = true -> isabs x = true) -> isabs s = false -> inert_val ex root s.
-Proof. intros EA H. left. destruct (ex s) eqn:E; [|reflexivity]. apply EA in E. congruence. Qed.
+Lemma rel_inert pe ex rroot s : isabs s = false -> inert_val pe ex rroot s.
+Proof. intro H. now left. Qed.
 
 (* the block of a flavor whose table file needs no trimming *)
-Lemma trim_block_inert ex root who now dS t U :
-  inert_val ex root dS -> inert_val ex root t -> inert_val ex root U ->
+Lemma trim_block_inert pe ex root rroot who now dS t U :
+  isabs root = true -> rp pe root = rroot ->
+  inert_val pe ex rroot dS -> inert_val pe ex rroot t -> inert_val pe ex rroot U ->
   ex who = false -> ex now = false ->
-  trim_info ex (Some root) (block_of who now dS t U) = Ok (block_of who now dS t U).
+  trim_info pe ex (Some root) (block_of who now dS t U) = Ok (block_of who now dS t U).
 Proof.
-  intros H1 H2 H3 H4 H5. unfold trim_info, trim_info_gen. apply trim_keys_inert.
+  intros HA HR H1 H2 H3 H4 H5. unfold trim_info, trim_info_gen.
+  apply (trim_keys_inert pe ex root rroot); [assumption|assumption|].
   intros k s. unfold block_of. cbn [alookup].
   repeat match goal with
          | |- (if ?b then _ else _) = _ -> _ => destruct b
-         end; intros [= <-]; auto; now left.
+         end; intros [= <-]; auto; right; now left.
 Qed.
 
 Lemma str_eqb_app_cons_false (a : str) c b : str_eqb a (a ++ c :: b) = false.
@@ -258,24 +275,35 @@ Proof.
   rewrite app_length in L. cbn in L. lia.
 Qed.
 
-(* the table file exists below the stack root: made relative to it, and to the product's
-   directory / ups directory if it lies in there *)
-Lemma trim_key_table ex root who now dS rel U :
-  wf_abs root = true -> nonempty dS = true -> ex (root ++ c_slash :: rel) = true ->
-  trim_key true ex (Some root) k_table_file (block_of who now dS (root ++ c_slash :: rel) U)
+Lemma link_view_root lk root rroot : link_view lk root rroot -> realpath lk root = rroot.
+Proof. intro H. specialize (H [] eq_refl). now rewrite !app_nil_r in H. Qed.
+
+(* the table file exists below the stack root as it is named: its resolved name is cut after
+   the resolved root, and made relative to the product's directory / ups directory if it lies
+   in there *)
+Lemma trim_key_table pe ex root rroot who now dS rel U :
+  wf_abs root = true -> wf_abs rroot = true -> link_view (pe_links pe) root rroot ->
+  nonempty dS = true -> ex (root ++ c_slash :: rel) = true ->
+  trim_key true pe ex (Some root) k_table_file (block_of who now dS (root ++ c_slash :: rel) U)
   = Ok (block_of who now dS
           (let dn := path_join dS U in
            if subpath rel dn && starts_with (dn ++ [c_slash]) rel then after (length dn) rel else rel) U).
 Proof.
-  intros HR Hd He. pose proof (wf_abs_nonempty _ HR) as NR.
+  intros HR HRR LV Hd He. pose proof (wf_abs_nonempty _ HR) as NR.
+  pose proof (wf_abs_nonempty _ HRR) as NRR.
   apply wf_abs_parts in HR. destruct HR as [R1 [R2 R3]].
+  apply wf_abs_parts in HRR. destruct HRR as [Q1 [Q2 Q3]].
   unfold trim_key.
   change (alookup k_table_file (block_of who now dS (root ++ c_slash :: rel) U))
     with (Some (Some (root ++ c_slash :: rel))).
-  cbv beta iota. rewrite He. cbn [negb]. destruct root as [|c r] eqn:Er; [congruence|]. rewrite <- Er in *.
-  assert (S : subpath (root ++ c_slash :: rel) root = true).
-  { unfold subpath, subpath_abs. rewrite isabs_app, R1 by assumption. cbn [Bool.eqb].
-    rewrite path_join_nil by assumption. rewrite starts_with_sep. apply orb_true_r. }
+  cbv beta iota.
+  assert (A : isabs (root ++ c_slash :: rel) = true) by now apply isabs_app.
+  rewrite A. cbn [negb andb]. rewrite (abs_from_abs _ _ A). rewrite He. cbn [negb].
+  destruct root as [|c r] eqn:Er; [congruence|]. rewrite <- Er in *.
+  rewrite (abs_from_abs _ _ R1). rewrite (link_view_root _ _ _ LV).
+  rewrite (LV (c_slash :: rel)) by reflexivity.
+  assert (S : subpath_abs (rroot ++ c_slash :: rel) rroot = true).
+  { unfold subpath_abs. rewrite path_join_nil by assumption. rewrite starts_with_sep. apply orb_true_r. }
   rewrite S, str_eqb_app_cons_false. cbn [negb andb]. rewrite after_app.
   change (aset k_table_file (Some rel) (block_of who now dS (root ++ c_slash :: rel) U))
     with (block_of who now dS rel U).
@@ -287,49 +315,54 @@ Proof.
     reflexivity.
 Qed.
 
-Lemma trim_block_table ex root who now dS rel U t' :
-  wf_abs root = true -> nonempty dS = true -> ex (root ++ c_slash :: rel) = true ->
+Lemma trim_block_table pe ex root rroot who now dS rel U t' :
+  wf_abs root = true -> wf_abs rroot = true -> link_view (pe_links pe) root rroot ->
+  nonempty dS = true -> ex (root ++ c_slash :: rel) = true ->
   (let dn := path_join dS U in
    if subpath rel dn && starts_with (dn ++ [c_slash]) rel then after (length dn) rel else rel) = t' ->
-  inert_val ex root dS -> inert_val ex root U -> ex who = false -> ex now = false ->
-  trim_info ex (Some root) (block_of who now dS (root ++ c_slash :: rel) U)
+  inert_val pe ex rroot dS -> inert_val pe ex rroot U -> ex who = false -> ex now = false ->
+  trim_info pe ex (Some root) (block_of who now dS (root ++ c_slash :: rel) U)
   = Ok (block_of who now dS t' U).
 Proof.
-  intros HR Hd He Et H1 H3 H4 H5. unfold trim_info, trim_info_gen.
+  intros HR HRR LV Hd He Et H1 H3 H4 H5. unfold trim_info, trim_info_gen.
+  assert (HA : isabs root = true) by (apply wf_abs_parts in HR; tauto).
+  pose proof (link_view_root _ _ _ LV : rp pe root = rroot) as HRP.
   change (akeys (block_of who now dS (root ++ c_slash :: rel) U))
     with [k_productDir; k_table_file; k_ups_dir; k_declarer; k_declared].
   cbn [trim_keys].
-  rewrite trim_key_inert.
+  rewrite (trim_key_inert pe ex root rroot); [|assumption|assumption|].
   2:{ change (alookup k_productDir (block_of who now dS (root ++ c_slash :: rel) U)) with (Some (Some dS)).
       now intros s [= <-]. }
-  cbn [bind]. rewrite trim_key_table by assumption. rewrite Et. cbn [bind].
-  rewrite trim_key_inert.
+  cbn [bind]. rewrite (trim_key_table pe ex root rroot) by assumption. rewrite Et. cbn [bind].
+  rewrite (trim_key_inert pe ex root rroot); [|assumption|assumption|].
   2:{ change (alookup k_ups_dir (block_of who now dS t' U)) with (Some (Some U)). now intros s [= <-]. }
-  cbn [bind]. rewrite trim_key_inert.
+  cbn [bind]. rewrite (trim_key_inert pe ex root rroot); [|assumption|assumption|].
   2:{ change (alookup k_declarer (block_of who now dS t' U)) with (Some (Some who)).
-      intros s [= <-]. now left. }
-  cbn [bind]. rewrite trim_key_inert.
+      intros s [= <-]. right. now left. }
+  cbn [bind]. rewrite (trim_key_inert pe ex root rroot); [|assumption|assumption|].
   2:{ change (alookup k_declared (block_of who now dS t' U)) with (Some (Some now)).
-      intros s [= <-]. now left. }
+      intros s [= <-]. right. now left. }
   reflexivity.
 Qed.
 
 (* ------------------------------------------------------------ Database.declare on records *)
 
-(* no block already in the file holds an existing path below the stack root *)
-Definition blocks_inert (ex : str -> bool) (root : str) (m : amap info) : Prop :=
-  forall g j, In (g, j) m -> forall k s, alookup k j = Some (Some s) -> inert_val ex root s.
+(* no block already in the file holds an existing absolute path that resolves to the stack
+   root or below it *)
+Definition blocks_inert (pe : penv) (ex : str -> bool) (rroot : str) (m : amap info) : Prop :=
+  forall g j, In (g, j) m -> forall k s, alookup k j = Some (Some s) -> inert_val pe ex rroot s.
 
-Lemma declare_rec_gen ex who now n v f root dk t u r B :
-  wf_abs root = true -> wf_dirk dk = true -> wf_place root dk = true ->
+Lemma declare_rec_gen pe ex who now n v f root rroot dk t u r B :
+  wf_abs root = true -> rp pe root = rroot -> wf_dirk dk = true -> wf_place root dk = true ->
   canon_keeps root t u -> nonempty t = true -> under_dir (dir_stored dk) t = false -> ups_plain u ->
-  alookup f (vf_info r) = None -> ex root = true -> blocks_inert ex root (vf_info r) ->
-  trim_info ex (Some root) (block_of who now (dir_stored dk) t (ups_word u)) = Ok B ->
-  declare_rec true ex who now
+  alookup f (vf_info r) = None -> ex root = true -> blocks_inert pe ex rroot (vf_info r) ->
+  trim_info pe ex (Some root) (block_of who now (dir_stored dk) t (ups_word u)) = Ok B ->
+  declare_rec true pe ex who now
     (prod_of n v f (Some (dir_given root dk)) (Some t) (Some (db_of root)) u) r
   = Ok {| vf_name := vf_name r; vf_version := vf_version r; vf_info := vf_info r ++ [(f, B)] |}.
 Proof.
-  intros HR Hd Hp Hk Ht Hu Hups Hf Hex Hin HB. unfold declare_rec, clone.
+  intros HR HRP Hd Hp Hk Ht Hu Hups Hf Hex Hin HB. unfold declare_rec, clone.
+  assert (HA : isabs root = true) by (apply wf_abs_parts in HR; tauto).
   cbn [prod_of p_name p_version p_flavor p_dir p_table p_db p_ups].
   rewrite mk_product_id by (apply dir_given_truthy || apply nonempty_truthy; assumption).
   rewrite canon_scenario by assumption.
@@ -341,22 +374,24 @@ Proof.
   unfold prod_of. rewrite stack_root_db by assumption.
   pose proof (wf_abs_nonempty _ HR) as NR. destruct root as [|c x] eqn:Er; [congruence|].
   rewrite <- Er in *. rewrite Hex. cbn [vf_info vf_name vf_version].
-  rewrite (trim_all_app_last ex root (vf_info r) f _ B); [reflexivity| |assumption].
-  now apply trim_all_inert.
+  rewrite (trim_all_app_last pe ex root (vf_info r) f _ B); [reflexivity| |assumption].
+  now apply (trim_all_inert pe ex root rroot).
 Qed.
 
-Lemma declare_rec_ups_out ex who now n v f root o tn r :
-  wf_abs root = true -> wf_abs o = true -> outside root o = true ->
+Lemma declare_rec_ups_out pe ex who now n v f root rroot o tn r :
+  wf_abs root = true -> wf_abs rroot = true -> rp pe root = rroot ->
+  wf_abs o = true -> outside root o = true -> outside rroot (rp pe o) = true ->
   nonempty tn = true -> mem_ascii c_slash tn = false -> isabs tn = false ->
   starts_with (db_of root ++ [c_slash]) (o ++ c_slash :: s_ups ++ c_slash :: tn) = false ->
-  (forall s, ex s = true -> isabs s = true) -> ex who = false -> ex now = false ->
-  alookup f (vf_info r) = None -> ex root = true -> blocks_inert ex root (vf_info r) ->
-  declare_rec true ex who now
+  ex who = false -> ex now = false ->
+  alookup f (vf_info r) = None -> ex root = true -> blocks_inert pe ex rroot (vf_info r) ->
+  declare_rec true pe ex who now
     (prod_of n v f (Some o) (Some (o ++ c_slash :: s_ups ++ c_slash :: tn)) (Some (db_of root)) (Some s_ups)) r
   = Ok {| vf_name := vf_name r; vf_version := vf_version r;
           vf_info := vf_info r ++ [(f, block_of who now o tn s_ups)] |}.
 Proof.
-  intros HR Ho Hout Ht Hs Hrel Hdb EA Hw Hn Hf Hex Hin. unfold declare_rec, clone.
+  intros HR HRR HRP Ho Hout Hrout Ht Hs Hrel Hdb Hw Hn Hf Hex Hin. unfold declare_rec, clone.
+  assert (HA : isabs root = true) by (apply wf_abs_parts in HR; tauto).
   cbn [prod_of p_name p_version p_flavor p_dir p_table p_db p_ups].
   assert (O1 : isabs o = true) by (apply wf_abs_parts in Ho; tauto).
   assert (Tabs : isabs (o ++ c_slash :: s_ups ++ c_slash :: tn) = true) by now apply isabs_app.
@@ -379,10 +414,10 @@ Proof.
   unfold prod_of. rewrite stack_root_db by assumption.
   pose proof (wf_abs_nonempty _ HR) as NR. destruct root as [|c x] eqn:Er; [congruence|].
   rewrite <- Er in *. rewrite Hex. cbn [vf_info vf_name vf_version].
-  rewrite (trim_all_app_last ex root (vf_info r) f _ (block_of who now o tn s_ups)); [reflexivity| |].
-  - now apply trim_all_inert.
-  - apply trim_block_inert; auto.
-    + right. now apply subpath_outside.
+  rewrite (trim_all_app_last pe ex root (vf_info r) f _ (block_of who now o tn s_ups)); [reflexivity| |].
+  - now apply (trim_all_inert pe ex root rroot).
+  - apply (trim_block_inert pe ex root rroot); auto.
+    + right. right. now apply subpath_abs_outside.
     + now apply rel_inert.
     + now apply rel_inert.
 Qed.
@@ -427,6 +462,11 @@ Definition table_stored (tk : tabk) : str * str :=
 
 Definition wf_name_part (tn : str) : bool := wf_rel tn && negb (mem_ascii c_slash tn).
 
+(* outside directories and table files resolve to places outside the resolved stack root *)
+Definition out_real (pe : penv) (rroot : str) (dk : dirk) (tk : tabk) : Prop :=
+  out_dir pe rroot dk /\
+  match tk with TAbsOut T => outside rroot (rp pe T) = true | _ => True end.
+
 (* side conditions on the placement: everything is where its kind says, and nowhere more
    specific (a table inside the stack is not inside the database directory nor inside the
    product's own ups directory; a table outside is not inside an outside product) *)
@@ -453,9 +493,11 @@ Definition tab_ok (root : str) (dk : dirk) (tk : tabk) : bool :=
   | TNone => true
   end.
 
-(* the file system when the product is declared *)
+(* the file system when the product is declared, by the names used in the declaration: the
+   stack root and a table file inside the stack exist.  Nothing is asked of relative names,
+   i.e. of the contents of the current directory. *)
 Definition decl_ok (ex : str -> bool) (root : str) (dk : dirk) (tk : tabk) : Prop :=
-  (forall s, ex s = true -> isabs s = true) /\ ex root = true /\
+  ex root = true /\
   match tk with
   | TUps tn => match dk with DIn _ => ex (table_at root dk tk) = true | _ => True end
   | TAbsIn t => ex (root ++ c_slash :: t) = true
@@ -529,23 +571,25 @@ Proof.
 Qed.
 
 (* the record after declaring a new flavor f *)
-Theorem declare_stores ex who now n v f root dk tk r :
-  wf_abs root = true -> wf_dirk dk = true -> wf_place root dk = true -> tab_ok root dk tk = true ->
+Theorem declare_stores pe ex who now n v f root rroot dk tk r :
+  wf_abs root = true -> wf_abs rroot = true -> link_view (pe_links pe) root rroot ->
+  wf_dirk dk = true -> wf_place root dk = true -> tab_ok root dk tk = true -> out_real pe rroot dk tk ->
   decl_ok ex root dk tk -> ex who = false -> ex now = false ->
-  alookup f (vf_info r) = None -> blocks_inert ex root (vf_info r) ->
-  declare_rec true ex who now
+  alookup f (vf_info r) = None -> blocks_inert pe ex rroot (vf_info r) ->
+  declare_rec true pe ex who now
     (prod_of n v f (Some (dir_given root dk)) (Some (fst (table_given root dk tk)))
              (Some (db_of root)) (snd (table_given root dk tk))) r
   = Ok {| vf_name := vf_name r; vf_version := vf_version r;
           vf_info := vf_info r ++ [(f, block_of who now (dir_stored dk) (fst (table_stored tk))
                                                 (snd (table_stored tk)))] |}.
 Proof.
-  intros HR Hd Hp Ht [EA [Hroot Hdecl]] Hw Hn Hf Hin.
-  pose proof (dir_stored_inert ex root dk EA HR Hd Hp) as Idir.
+  intros HR HRR LV Hd Hp Ht [Odir Otab] [Hroot Hdecl] Hw Hn Hf Hin.
+  pose proof (link_view_root _ _ _ LV : rp pe root = rroot) as HRP.
+  pose proof (dir_stored_inert pe ex rroot dk HRR Hd Odir) as Idir.
   destruct (dir_stored_props dk Hd) as [D1 D2].
   assert (Rabs : isabs root = true) by (apply wf_abs_parts in HR; tauto).
   assert (UPups : ups_plain (Some s_ups)) by (repeat split; reflexivity).
-  assert (Iups : inert_val ex root s_ups) by now apply rel_inert.
+  assert (Iups : inert_val pe ex rroot s_ups) by now apply rel_inert.
   destruct tk as [tn|t|T|e tn|]; cbn [table_given table_stored fst snd tab_ok] in *.
   - (* own ups directory *)
     apply andb_true_iff in Ht. destruct Ht as [Hn1 Ht].
@@ -559,14 +603,14 @@ Proof.
       assert (Tabs : isabs T = true) by (unfold T; now apply isabs_app, isabs_app).
       assert (K : canon_keeps root T (Some s_ups)).
       { left. repeat split; auto. rewrite ET. exact Ht. }
-      assert (TB : trim_info ex (Some root) (block_of who now d T s_ups)
+      assert (TB : trim_info pe ex (Some root) (block_of who now d T s_ups)
                    = Ok (block_of who now d tn s_ups)).
-      { rewrite ET. apply trim_block_table; auto.
+      { rewrite ET. apply (trim_block_table pe ex root rroot); auto.
         - rewrite <- ET. rewrite <- Hdecl. reflexivity.
         - now apply subpath_own_ups. }
-      exact (declare_rec_gen ex who now n v f root (DIn d) T (Some s_ups) r _ HR Hd Hp K
+      exact (declare_rec_gen pe ex who now n v f root rroot (DIn d) T (Some s_ups) r _ HR HRP Hd Hp K
                (nonempty_abs T Tabs) (under_dir_rel_abs d T Dn Dabs Tabs) UPups Hf Hroot Hin TB).
-    + apply negb_true_iff in Ht. apply (declare_rec_ups_out ex who now n v f root o tn r); auto.
+    + apply negb_true_iff in Ht. apply (declare_rec_ups_out pe ex who now n v f root rroot o tn r); auto.
   - (* elsewhere inside the stack *)
     apply andb_true_iff in Ht. destruct Ht as [Ht Hdk]. apply andb_true_iff in Ht. destruct Ht as [T1 T2].
     apply negb_true_iff in T2.
@@ -579,9 +623,9 @@ Proof.
       - apply wf_rel_parts in Hd. apply under_dir_rel_abs; tauto.
       - unfold under_dir. apply negb_true_iff in Hdk. unfold T. now rewrite Hdk, andb_false_r.
       - reflexivity. }
-    assert (TB : trim_info ex (Some root) (block_of who now (dir_stored dk) T s_ups)
+    assert (TB : trim_info pe ex (Some root) (block_of who now (dir_stored dk) T s_ups)
                  = Ok (block_of who now (dir_stored dk) t s_ups)).
-    { unfold T. apply trim_block_table; auto.
+    { unfold T. apply (trim_block_table pe ex root rroot); auto.
       destruct dk as [d|o|]; cbn [dir_stored] in *.
       - apply negb_true_iff in Hdk. cbv zeta. now rewrite Hdk.
       - cbv zeta. assert (S : subpath t (path_join o s_ups) = false).
@@ -592,7 +636,7 @@ Proof.
           now rewrite A. }
         now rewrite S.
       - apply negb_true_iff in Hdk. cbv zeta. now rewrite Hdk. }
-    exact (declare_rec_gen ex who now n v f root dk T (Some s_ups) r _ HR Hd Hp K
+    exact (declare_rec_gen pe ex who now n v f root rroot dk T (Some s_ups) r _ HR HRP Hd Hp K
              (nonempty_abs T TA) UD UPups Hf Hroot Hin TB).
   - (* outside the stack *)
     apply andb_true_iff in Ht. destruct Ht as [Ht Hdk]. apply andb_true_iff in Ht. destruct Ht as [T1 T2].
@@ -608,29 +652,39 @@ Proof.
       - apply wf_rel_parts in Hd. apply under_dir_rel_abs; tauto.
       - unfold under_dir. apply negb_true_iff in Hdk. now rewrite Hdk, andb_false_r.
       - reflexivity. }
-    assert (TB : trim_info ex (Some root) (block_of who now (dir_stored dk) T s_ups)
+    assert (TB : trim_info pe ex (Some root) (block_of who now (dir_stored dk) T s_ups)
                  = Ok (block_of who now (dir_stored dk) T s_ups)).
-    { apply trim_block_inert; auto. right. now apply subpath_outside. }
-    exact (declare_rec_gen ex who now n v f root dk T (Some s_ups) r _ HR Hd Hp K
+    { apply (trim_block_inert pe ex root rroot); auto. right. right. now apply subpath_abs_outside. }
+    exact (declare_rec_gen pe ex who now n v f root rroot dk T (Some s_ups) r _ HR HRP Hd Hp K
              (nonempty_abs T Tabs) UD UPups Hf Hroot Hin TB).
   - (* held in the database *)
     apply andb_true_iff in Ht. destruct Ht as [Hn1 He]. apply negb_true_iff in He.
     destruct (wf_name_part_parts tn Hn1) as [N1 [N2 [N3 N4]]].
     assert (K : canon_keeps root tn (Some (ups_in_db e))) by (right; split; [assumption|reflexivity]).
     assert (UD : under_dir (dir_stored dk) tn = false) by (unfold under_dir; now rewrite N4, andb_false_r).
-    assert (TB : trim_info ex (Some root) (block_of who now (dir_stored dk) tn (ups_in_db e))
+    assert (TB : trim_info pe ex (Some root) (block_of who now (dir_stored dk) tn (ups_in_db e))
                  = Ok (block_of who now (dir_stored dk) tn (ups_in_db e))).
-    { apply trim_block_inert; auto; now apply rel_inert. }
-    exact (declare_rec_gen ex who now n v f root dk tn (Some (ups_in_db e)) r _ HR Hd Hp K
+    { apply (trim_block_inert pe ex root rroot); auto; now apply rel_inert. }
+    exact (declare_rec_gen pe ex who now n v f root rroot dk tn (Some (ups_in_db e)) r _ HR HRP Hd Hp K
              N3 UD (ups_in_db_plain e) Hf Hroot Hin TB).
   - (* no table file *)
     assert (K : canon_keeps root s_none None) by (right; split; [reflexivity|exact I]).
-    assert (TB : trim_info ex (Some root) (block_of who now (dir_stored dk) s_none s_none)
+    assert (TB : trim_info pe ex (Some root) (block_of who now (dir_stored dk) s_none s_none)
                  = Ok (block_of who now (dir_stored dk) s_none s_none)).
-    { apply trim_block_inert; auto; now apply rel_inert. }
+    { apply (trim_block_inert pe ex root rroot); auto; now apply rel_inert. }
     assert (UD : under_dir (dir_stored dk) s_none = false) by (unfold under_dir; change (isabs s_none) with false; now rewrite andb_false_r).
-    exact (declare_rec_gen ex who now n v f root dk s_none None r _ HR Hd Hp K
+    exact (declare_rec_gen pe ex who now n v f root rroot dk s_none None r _ HR HRP Hd Hp K
              eq_refl UD I Hf Hroot Hin TB).
+Qed.
+
+(* without links the outside conditions are those of the placement *)
+Lemma out_real_nolinks pe root dk tk :
+  pe_links pe = [] -> wf_place root dk = true -> tab_ok root dk tk = true -> out_real pe root dk tk.
+Proof.
+  intros E Hp Ht. unfold out_real, out_dir, rp. rewrite E. split.
+  - destruct dk; auto.
+  - destruct tk as [tn|t|T|e tn|]; auto. cbn [tab_ok] in Ht.
+    apply andb_true_iff in Ht. destruct Ht as [Ht _]. apply andb_true_iff in Ht. tauto.
 Qed.
 
 (* ------------------------------------------------------------ Database.findProduct on the stored block *)
@@ -754,14 +808,43 @@ Proof.
   - split; reflexivity.
 Qed.
 
-Lemma db_declare_fresh ex who now p r' :
+Lemma db_declare_fresh pe ex who now p r' :
   nonempty (p_name p) = true -> nonempty (p_version p) = true -> nonempty (p_flavor p) = true ->
-  declare_rec true ex who now p
+  declare_rec true pe ex who now p
     {| vf_name := Some (p_name p); vf_version := Some (p_version p); vf_info := [] |} = Ok r' ->
-  db_declare ex who now p None = vf_lines r'.
+  db_declare pe ex who now p None = vf_lines r'.
 Proof.
   intros H1 H2 H3 E. unfold db_declare, db_declare_gen. rewrite H1, H2, H3. cbn [andb negb].
   cbn [bind]. rewrite E. cbn [bind].
   unfold declare_rec in E.
   destruct (truthy (p_table (canon_gen true (clone ex p)))); [reflexivity|discriminate].
+Qed.
+
+(* ------------------------------------------------------------ the repaired loop does not look at the current directory *)
+
+Lemma trim_key_cwd pe pe' ex ex' td k (i : info) :
+  isabs td = true -> pe_links pe = pe_links pe' -> (forall s, isabs s = true -> ex s = ex' s) ->
+  trim_key true pe ex (Some td) k i = trim_key true pe' ex' (Some td) k i.
+Proof.
+  intros HA HL HE. unfold trim_key. destruct (alookup k i) as [[s|]|]; try reflexivity.
+  cbn [andb]. destruct (isabs s) eqn:A; cbn [negb]; [|reflexivity].
+  rewrite !(abs_from_abs _ _ A), (HE s A). destruct td as [|c r]; [reflexivity|].
+  rewrite !(abs_from_abs _ _ HA), HL. reflexivity.
+Qed.
+
+Lemma trim_keys_cwd pe pe' ex ex' td keys (i : info) :
+  isabs td = true -> pe_links pe = pe_links pe' -> (forall s, isabs s = true -> ex s = ex' s) ->
+  trim_keys true pe ex (Some td) keys i = trim_keys true pe' ex' (Some td) keys i.
+Proof.
+  intros HA HL HE. revert i. induction keys as [|k ks IH]; intro i; [reflexivity|]. cbn [trim_keys].
+  rewrite (trim_key_cwd pe pe' ex ex') by assumption.
+  destruct (trim_key true pe' ex' (Some td) k i) as [j|]; [|reflexivity]. cbn [bind]. apply IH.
+Qed.
+
+Lemma trim_all_cwd pe pe' ex ex' td (m : amap info) :
+  isabs td = true -> pe_links pe = pe_links pe' -> (forall s, isabs s = true -> ex s = ex' s) ->
+  trim_all true pe ex (Some td) m = trim_all true pe' ex' (Some td) m.
+Proof.
+  intros HA HL HE. induction m as [|[g j] m IH]; [reflexivity|]. cbn [trim_all]. unfold trim_info_gen.
+  rewrite (trim_keys_cwd pe pe' ex ex') by assumption. now rewrite IH.
 Qed.
